@@ -1,3 +1,4 @@
+from datetime import datetime
 from .n0struct_utils import isnumber
 # ******************************************************************************
 # ******************************************************************************
